@@ -48,8 +48,8 @@ CHECKS["C06"] = dict(
     engine="DISK",
     technique="deterministic simulation with fault injection: crash images computed from the recorded disk-event log of the WAL (every crash point incl. inside close/checkpoint/rotation; un-synced tails kept/lost/torn; un-synced files absent; rename durable or not), single-bit flips of log files, and continuation after every fault; recovered dump must equal the reference model after some prefix p with floor <= p <= issued",
     category="fault_enumeration",
-    text="Per execution ~6 (quick) / 12 (thorough) crash images per incarnation are materialised on tmpfs, opened with the real recovery code and judged; crashes that the history continues from, bit flips and clean reopens are further generated operations. Floors come both from the bytes below each file's last fsync and from what sync/checkpoint/close promised by returning. Open must succeed and never panic.",
-    design_ref="DESIGN.md §3 C06",
+    text="Per execution ~6 (quick) / 12 (thorough) crash images per incarnation are materialised on tmpfs, opened with the real recovery code and judged; crashes that the history continues from, bit flips and clean reopens are further generated operations. Floors come both from the bytes below each file's last fsync and from what sync/checkpoint/close promised by returning. Open must succeed and never panic. A reference replay of each image (the format's rules re-implemented over the bytes, no tree code) tells a loss in what was written from a loss in how it is read back: the listed lost-tail findings only apply when the recovered state equals that replay. After every sync/wal_checkpoint/close that returns, no log file may hold written bytes that no fsync covers.",
+    design_ref="DESIGN.md §3 C06, Part II B1.15",
     note="ext4-like directory-entry durability; atomic rename with sampled durability; op-granular prefixes; I/O errors not injected; checkpoint.meta is not bit-flipped. Several genuine defects of the pinned tree are listed in known_findings.jsonl and narrow what can still be observed behind them (see evidence.known_findings_seen).",
 )
 
@@ -57,7 +57,7 @@ CHECKS["C20"] = dict(
     engine="SCHED",
     technique="deterministic simulation of thread schedules: 2-3 simulated threads under shuttle (random + PCT schedulers, recorded schedules) with every parking_lot acquire/release and every hooked atomic a scheduling point; outcome compared with all sequential interleavings of the same operations run on the real code, plus deadlock/no-progress/panic detection and memory-accounting invariants",
     category="exploration",
-    text="Seeded search over scenarios (LpgStore core ops, LpgStore full op mix, RdfStore same-triple insert/remove, TransactionManager begin/write/commit/gc, BufferManager grants against a budget that fits k-1 of k requests), each explored under 40 (quick) / 120 (thorough) schedules. Returns and final state (primary data and every derived structure as seen through its accessors) must equal those of some sequential order; ids unique; commit epochs unique and increasing; allocated() <= hard limit sampled after every operation and 0 after all grants are dropped; shuttle's deadlock detector and a 60k-step bound give no-deadlock / bounded progress.",
+    text="Seeded search over scenarios (LpgStore core ops, LpgStore full op mix, RdfStore same-triple insert/remove, TransactionManager begin/write/commit/gc, BufferManager grants against a budget that fits k-1 of k requests, Catalog name dictionaries and index definitions, QueryCache at capacity 2, WalManager log/sync/rotate on one directory with rotation every 1-3 records), each explored under 40 (quick) / 120 (thorough) schedules. Returns and final state (primary data and every derived structure as seen through its accessors) must equal those of some sequential order; ids unique; commit epochs unique and increasing; allocated() <= hard limit sampled after every operation and 0 after all grants are dropped; shuttle's deadlock detector and a 60k-step bound give no-deadlock / bounded progress.",
     design_ref="DESIGN.md §3 C20",
     note="Interleavings at lock-operation and hooked-atomic granularity; lock-free internals of dashmap/crossbeam are not explored at their own granularity. The LpgStore full-mix family has open known findings (component structures updated under separate locks) that mask further deviations in the same outcome component; the lpg-core, rdf, txm and buffer families have none.",
 )
@@ -72,10 +72,10 @@ CHECKS["C01"] = dict(
 )
 CHECKS["C02"] = dict(
     engine="HIST",
-    technique="deterministic simulation of multi-session histories with one transaction under the microscope; after every commit/rollback/session-drop a fresh session dumps the database through every access path and the dump is compared with the reference model's committed state; deviations classified against the lock-step pinned twin",
+    technique="deterministic simulation of multi-session histories (half with one transaction under the microscope, half with overlapping transactions of 2-4 sessions); after every commit/rollback/session-drop a fresh session dumps the database through every access path and the dump is compared with the reference model's committed state; deviations classified against the lock-step pinned twin, runs continue behind deviations the twin shares",
     category="exploration",
-    text="Seeded search (20k quick / 1M thorough) over transactions of 1-4 mutations (every mutation route) ended by commit, rollback or dropping the session while other sessions interleave committed work. After rollback/drop the dump must equal the model without the transaction, after commit with all of it. A differing dump is a violation unless it equals the pinned tree's dump on the same history and its (end, access path) is a listed known finding.",
-    design_ref="DESIGN.md §3 C02, §2.5a",
+    text="Seeded search (20k quick / 1M thorough) over transactions of 1-4 mutations (every mutation route) ended by commit, rollback or dropping the session while other sessions interleave committed work. After rollback/drop the dump must equal the model without the transaction, after commit with all of it. A differing dump is a violation unless it equals the pinned tree's dump on the same history and its (end, access path) is a listed known finding; in that case the run goes on, so later transaction ends (including those of other, still open or younger transactions) are judged too.",
+    design_ref="DESIGN.md §3 C02, §2.5a, Part II B1.14",
     note="Failed commits cannot be produced through the public API on this tree (no write sets are registered by sessions), so that end is not generated. Same trusted base as C01.",
 )
 
@@ -83,16 +83,16 @@ CHECKS["C13"] = dict(
     engine="RDF+SCHED",
     technique="deterministic simulation: seeded histories of triple insert/remove/clear, transaction buffers and SPARQL updates over the real RdfStore / GrafeoDB, every lookup shape compared with a set model after every step; plus thread-scheduled same-triple insert/remove scenarios under shuttle",
     category="exploration",
-    text="Decides the history-, transaction- and thread-dependent half of the property: after any generated history all 8 bound/unbound shapes, per-position lookups, counts and every open transaction's pending view equal a BTreeSet model (each match exactly once), and concurrent insert/remove of one triple leaves indexes and primary set describing the same set. SPARQL is reached only through a fixed template family evaluated by brute force.",
-    design_ref="DESIGN.md §3 C13",
+    text="Decides the history-, transaction- and thread-dependent half of the property: after any generated history all 8 bound/unbound shapes, per-position lookups, counts and every open transaction's pending view equal a BTreeSet model (each match exactly once), and concurrent insert/remove of one triple leaves indexes and primary set describing the same set. SPARQL is reached only through a fixed family of 16 templates evaluated by brute force. Deviations of the pending view and of a template are classified against the pinned twin run in lock-step (same answer = listed finding of that tree; any other answer is not listable).",
+    design_ref="DESIGN.md §3 C13, Part II B1.15",
     note="NOT decided: 'all queries from the SPARQL core grammar' (pure function of triple set and query text). Ring index feature off.",
 )
 CHECKS["C15"] = dict(
     engine="CODEC",
     technique="deterministic simulation: seeded histories over the two stateful containers that embed the codecs (PropertyStorage with force-compress/decompress, ChunkedAdjacency with compaction, cold compression and freeze_all at chunk capacities 1/2/4/64), every read compared with a map / multiset model after every step",
     category="exploration",
-    text="Decides the last sentence of the statement and the 'compressed adjacency chunks' item: a read after any history of writes, compressions and decompressions equals the model. The integer (zig-zag+delta/bit-pack/RLE via TypeSpecificCompressor), dictionary and boolean codecs run end to end through compress_as_*/decompress_all; DeltaBitPacked/BitPackedInts through cold adjacency chunks.",
-    design_ref="DESIGN.md §3 C15",
+    text="Decides the last sentence of the statement and the 'compressed adjacency chunks' item: a read after any history of writes, compressions and decompressions equals the model; deviations are classified against the pinned twin run in lock-step and a run continues behind deviations the twin shares (the pinned tree cannot read compressed values back, so without this nothing after the first compression would be judged). The integer (zig-zag+delta/bit-pack/RLE via TypeSpecificCompressor), dictionary and boolean codecs run end to end through compress_as_*/decompress_all; DeltaBitPacked/BitPackedInts through cold adjacency chunks.",
+    design_ref="DESIGN.md §3 C15, Part II B1.14",
     note="NOT decided: the per-codec round-trip / random-access / byte-serialisation laws over all input sequences (pure functions of the input; property-based testing territory). CompressionMode is not exported, so Auto/Eager thresholds are unreachable from outside the crate.",
 )
 
@@ -116,20 +116,20 @@ CHECKS["C18"] = dict(
 
 CHECKS["C10"] = dict(
     engine="TWIN",
-    technique="deterministic simulation of histories on twin databases in lock-step: data changes, index creation/removal and repeated query texts (two sessions sharing the plan cache) are applied to a database with indexes/cache/factorized execution and to a twin with none of them; row multisets compared after every query, plus brute force over a model for the unambiguous templates",
+    technique="deterministic simulation of histories on three databases in lock-step: data changes (multigraph shapes: parallel edges, loops, paths), index creation/removal and repeated query texts (two sessions sharing the plan cache) are applied to A (indexes, plan cache, factorized), B (no index, no plan cache) and C (no index, flat execution); row multisets compared after every query, plus brute force over a model for the unambiguous templates",
     category="exploration",
-    text="Decides the history-dependent half of the property (plan cached before the data, the statistics or the index set changed; index created or dropped between executions of one query text; cache shared across sessions; spacing variants of one text) over a fixed template family (8k quick / 500k thorough histories).",
+    text="Decides the history-dependent half of the property (plan cached before the data, the statistics or the index set changed; index created or dropped between executions of one query text; cache shared across sessions; spacing variants of one text) over a fixed template family (80k quick / 2M thorough histories). A wrong answer does not end the run (queries change nothing).",
     design_ref="DESIGN.md §3 C10",
     note="NOT decided: 'for all queries and graphs' as a universal statement about the planner (pure function of graph, query, configuration). Cache eviction is not reached (capacity 1000).",
 )
 
 CHECKS["C17"] = dict(
-    engine="PAR",
-    technique="deterministic simulation of thread schedules: ParallelPipeline's own scoped worker threads are handed to shuttle through a cfg-guarded std::thread::scope seam; every parking_lot lock operation and every atomic of scheduler.rs/pipeline.rs is a scheduling point; output compared with a brute-force sequential evaluation",
+    engine="PAR+SPILL",
+    technique="deterministic simulation of thread schedules: ParallelPipeline's own scoped worker threads are handed to shuttle through a cfg-guarded std::thread::scope seam; every parking_lot lock operation and every atomic of scheduler.rs/pipeline.rs is a scheduling point; output compared with a brute-force sequential evaluation. SPILL: the spilling sort and the spilling hash aggregate over generated tables with the spill files behind the file seam: memory budget, write-buffer size and an I/O fault plan (n-th file operation fails once / from then on, as generic error or disk full; EINTR once) are drawn per run; answer compared with the non-spilling operator and a brute-force model, spill directory and accounting checked afterwards",
     category="exploration",
-    text="Decides the schedule- and configuration-dependent part: for generated tables around the morsel boundaries and seven operator chains, 1-4 workers and five chunk sizes, every explored schedule (8 quick / 24 thorough per scenario; random and PCT) of morsel hand-out, stealing and result collection yields the rows (or mergeable partials) of sequential evaluation, the right rows_processed and morsel count, and no deadlock/panic.",
+    text="Decides the schedule-, budget- and fault-dependent part: the spilling operators give the in-memory answer under every generated budget (threshold 1 row .. never) and buffer size, turn a hard I/O fault into an error (never a panic or a different answer), are transparent to EINTR, and leave no spill file and zero accounting behind (10.8k quick / 540k thorough runs). PAR: for generated tables around the morsel boundaries and seven operator chains, 1-4 workers and five chunk sizes, every explored schedule (8 quick / 24 thorough per scenario; random and PCT) of morsel hand-out, stealing and result collection yields the rows (or mergeable partials) of sequential evaluation, the right rows_processed and morsel count, and no deadlock/panic.",
     design_ref="DESIGN.md §3 C17",
-    note="NOT decided: pull-vs-push equality, single-threaded chunk/morsel-size independence, merge.rs/fold.rs as functions of their inputs (pure); spilling operators (tokio file I/O, no simulated runtime). crossbeam's deque runs real code but only in sequentially consistent interleavings at the granularity of the hooked points.",
+    note="NOT decided: pull-vs-push equality, single-threaded chunk/morsel-size independence, merge.rs/fold.rs as functions of their inputs (pure); the async spill manager/files (tokio file I/O, no simulated runtime); spilling joins do not exist in this tree. crossbeam's deque runs real code but only in sequentially consistent interleavings at the granularity of the hooked points.",
 )
 
 NOT_APPLICABLE = {
@@ -163,10 +163,11 @@ manifest = {
         {"name": "CODEC", "path": "sim/src/eng_codec.rs", "serves_properties": ["C15"], "kind_free_text": "history simulator over PropertyStorage and ChunkedAdjacency with map models"},
         {"name": "SNAP", "path": "sim/src/eng_snap.rs", "serves_properties": ["C07"], "kind_free_text": "copy routes over history-built graphs; byte faults on the snapshot blob"},
         {"name": "VEC", "path": "sim/src/eng_vec.rs", "serves_properties": ["C18"], "kind_free_text": "history simulator over HnswIndex with an id->vector model"},
-        {"name": "TWIN", "path": "sim/src/eng_twin.rs", "serves_properties": ["C10"], "kind_free_text": "twin-database lock-step history simulator (indexes/cache/factorized vs none)"},
+        {"name": "TWIN", "path": "sim/src/eng_twin.rs", "serves_properties": ["C10"], "kind_free_text": "three databases in lock-step (indexes+cache+factorized / no cache / flat)"},
         {"name": "PAR", "path": "sim/src/eng_par.rs", "serves_properties": ["C17"], "kind_free_text": "ParallelPipeline workers as shuttle threads via the scoped-thread seam"},
+        {"name": "SPILL", "path": "sim/src/eng_spill.rs", "serves_properties": ["C17"], "kind_free_text": "spilling sort / aggregate with the spill files behind the file seam: memory budgets, buffer sizes, injected I/O errors, disk full and EINTR"},
         {"name": "SCHED", "path": "sim/src/eng_sched.rs", "serves_properties": ["C20", "C03", "C13"], "kind_free_text": "shuttle-scheduled simulated threads over the real stores/managers via the parking_lot lock seam (shims/parking_lot) and hooked atomics"},
-        {"name": "DISK", "path": "sim/src/eng_disk.rs", "serves_properties": ["C05", "C06"], "kind_free_text": "persistent GrafeoDB over a tapped tmpfs directory + simulated clock; crash images computed from the disk-event log"},
+        {"name": "DISK", "path": "sim/src/eng_disk.rs", "serves_properties": ["C05", "C06"], "kind_free_text": "persistent GrafeoDB over a tapped tmpfs directory + simulated clock; crash images computed from the disk-event log; reference replay of the image bytes"},
     ],
     "checks": [],
     "notes": "Deterministic simulation with fault injection. One binary (sim/), one PRNG stream per run derived from VERIF_SEED (default 1). Exit 2 = harness error. Known findings: known_findings.jsonl.",
